@@ -8,6 +8,9 @@ CHECKS = {
  "C01": ("model_checking", "bounded exhaustive enumeration of expressions x contexts x days on the real parser+evaluator against a minute-array reference model of the documented semantics",
          "Every expression of the bounded family (1-3 rules from collision-forcing alphabets, all separators/modifiers, plus the repository's sample corpus) is evaluated on every day of the window in every calendar context and compared with the reference model M; M abstains (counted) where the documentation is silent.",
          "Trusts M's transcription of the documented semantics (DESIGN §2.3; rows pinned to current behaviour are flagged), chrono date arithmetic. Expressions larger than the bound and days outside the window are not covered.", "DESIGN.md §3 C01"),
+ "C02": ("model_checking", "the interval iterator explored as a transition system (every next() of every explored stream) on the real code against the pointwise run-length oracle P built from the real schedule_at over every day of the window, including streams consumed to exhaustion over all 2 958 466 days",
+         "Run-length equality between the iterator's stream and the per-day schedules for every expression of the bounded family, from every derived start instant; the long-skip list is checked over the full supported range so that skips of months to millennia are covered.",
+         "P uses the real schedule_at (consistency of two paths of the implementation; schedule_at itself is C01). Expressions beyond the bound, time-zone contexts (C09) are outside.", "DESIGN.md §3 C02"),
  "C05": ("model_checking", "exhaustive enumeration of the sentences of the grammar up to a size bound (every AST x every combination of documented syntactic variants) against the AST the sentence denotes; single-field corruptions must be rejected",
          "parse(sentence) must be == the generating AST for every rendering of every AST of the family by an independent printer (13 variant switches, full product on the relevant ones); negative family from the statement's list must be Err.",
          "Trusts the engine's printer/variant table as the definition of 'documented relaxations' (transcribed from grammar.pest comments); strings outside it are not judged.", "DESIGN.md §3 C05"),
